@@ -40,7 +40,7 @@ THEOREMS = ['C13_dedup_merges_equal', 'C13_dedup_merges_tested',
             'C13_inline_den', 'C13_inline_score_den', 'C13_inline_complete',
             'C13_inline_model', 'C13_inline_total',
             'C13_acyclic_unique_model', 'C13_fill_geometry_den',
-            'C13_options_same_geometry']
+            'C13_fill_flags_lockstep', 'C13_options_same_geometry']
 TRUSTED = [
     'hand-written model coq/C13/Model.v (modelled, tied by execution only)',
     'Python dict lookup by hash then ==: modelled as "first stored key equal '
@@ -594,7 +594,7 @@ def classify_failures(text, lat, status):
 
 
 def run_sweep(res, tier, rng):
-    n_decks = 90 if tier == 'quick' else 400
+    n_decks = 80 if tier == 'quick' else 600
     n_points = 120 if tier == 'quick' else 200
     n_sigma = 100 if tier == 'quick' else 200
     jobs, metas = [], []
@@ -679,11 +679,11 @@ def run(res, tier, seed, proofs_ok):
     run_witnesses(res)
     run_witness_empty(res)
     run_corpus(res)
-    tie_eq(res, rng, 600 if quick else 4000)
-    tie_dedup(res, rng, 300 if quick else 2000)
+    tie_eq(res, rng, 300 if quick else 4000)
+    tie_dedup(res, rng, 250 if quick else 2000)
     tie_renumber(res, rng, 200 if quick else 1500)
-    tie_finish(res, rng, 300 if quick else 2000)
-    tie_inlining(res, rng, 300 if quick else 2000)
+    tie_finish(res, rng, 250 if quick else 2000)
+    tie_inlining(res, rng, 250 if quick else 2000)
     tie_fill(res, rng, 200 if quick else 1500)
     run_sweep(res, tier, rng)
 
